@@ -115,8 +115,28 @@ func genAsn1() {
 		die("identifier.go: isBinaryASN1 not found")
 	}
 	facts["asn1.identifierWalksTree"] = walks
-	writeGen("Asn1Tags", fmt.Sprintf("def asn1Tags : List (Nat × String) := [%s]\ndef asn1RecurseIntoEmpty : Bool := %v\ndef asn1ValueIgnoresClass : Bool := %v\ndef asn1IdentifierWalksTree : Bool := %v\n",
-		strings.Join(parts, ", "), recurseIntoEmpty, ignoresClass, walks))
+	// the UTCTime layout of Raw.Value: with seconds and converted to UTC, or the minute-resolution layout with a literal Z
+	utcSeconds := false
+	ast.Inspect(val.Body, func(n ast.Node) bool {
+		if c, ok := n.(*ast.CallExpr); ok {
+			if se, ok := c.Fun.(*ast.SelectorExpr); ok && se.Sel.Name == "Format" && len(c.Args) == 1 {
+				if lay, ok := strLit(c.Args[0]); ok {
+					switch lay {
+					case "2006-01-02T15:04:05Z":
+						utcSeconds = strings.Contains(nodeText(se.X), ".UTC()")
+					case "2006-01-02T15:04Z":
+						utcSeconds = false
+					default:
+						die("raw.go: Value formats a time with the layout %q, which is outside the modelled ones", lay)
+					}
+				}
+			}
+		}
+		return true
+	})
+	facts["asn1.utcShowsSeconds"] = utcSeconds
+	writeGen("Asn1Tags", fmt.Sprintf("def asn1Tags : List (Nat × String) := [%s]\ndef asn1RecurseIntoEmpty : Bool := %v\ndef asn1ValueIgnoresClass : Bool := %v\ndef asn1IdentifierWalksTree : Bool := %v\ndef asn1UtcShowsSeconds : Bool := %v\n",
+		strings.Join(parts, ", "), recurseIntoEmpty, ignoresClass, walks, utcSeconds))
 	facts["asn1.tagCount"] = len(rows)
 	facts["asn1.fromTagChecksClass"] = classGuard
 	facts["asn1.recurseIntoEmpty"] = recurseIntoEmpty
